@@ -149,25 +149,25 @@ impl Server {
                 #[cfg(parol_verif)]
                 let verif_connection = connection.clone();
                 #[cfg(parol_verif)]
-                crate::verif::gate(&verif_connection, version, crate::verif::Phase::Start);
+                crate::verif::gate(&verif_connection, uri.as_str(), version, crate::verif::Phase::Start);
                 if let Err(err) = calculate_lookahead_dfas(&grammar_config, max_k) {
                     eprintln!("check_grammar: errors from calculate_lookahead_dfas");
                     #[cfg(parol_verif)]
-                    crate::verif::gate(&verif_connection, version, crate::verif::Phase::Publish);
+                    crate::verif::gate(&verif_connection, uri.as_str(), version, crate::verif::Phase::Publish);
                     let _ =
                         Self::notify_analysis_error(err, connection, &uri, version, document_state);
                 }
                 #[cfg(parol_verif)]
-                crate::verif::done(&verif_connection, version);
+                crate::verif::done(&verif_connection, uri.as_str(), version);
             }
             GrammarType::LALR1 => {
                 #[cfg(parol_verif)]
                 let verif_connection = connection.clone();
                 #[cfg(parol_verif)]
-                crate::verif::gate(&verif_connection, version, crate::verif::Phase::Start);
+                crate::verif::gate(&verif_connection, uri.as_str(), version, crate::verif::Phase::Start);
                 let result = calculate_lalr1_parse_table(&grammar_config);
                 #[cfg(parol_verif)]
-                crate::verif::gate(&verif_connection, version, crate::verif::Phase::Publish);
+                crate::verif::gate(&verif_connection, uri.as_str(), version, crate::verif::Phase::Publish);
                 match result {
                     Ok((_, resolved_conflicts)) => {
                         let _ = Self::notify_resolved_conflicts(
@@ -189,7 +189,7 @@ impl Server {
                     }
                 }
                 #[cfg(parol_verif)]
-                crate::verif::done(&verif_connection, version);
+                crate::verif::done(&verif_connection, uri.as_str(), version);
             }
         });
         Ok(())
